@@ -172,14 +172,14 @@ var tlsCredKinds = []string{"plaintext", "tls-no-client-cert", "self-signed-perm
 
 // issuedIdentity is the subject name of the "issued-..." credentials.
 var issuedIdentity = map[string]string{
-	"issued-subject-client-test02-alt-names-client-test01-and-own":    "client-test02",
-	"issued-subject-client-test03-alt-name-client-test01":             "client-test03",
-	"issued-subject-client-test02-alt-name-client-test01-only":        "client-test02",
+	"issued-subject-client-test02-alt-names-client-test01-and-own":     "client-test02",
+	"issued-subject-client-test03-alt-name-client-test01":              "client-test03",
+	"issued-subject-client-test02-alt-name-client-test01-only":         "client-test02",
 	"issued-subject-client-test03-organisation-and-unit-client-test01": "client-test03",
-	"issued-subject-client-test03-email-and-uri-client-test01":        "client-test03",
-	"issued-empty-subject-alt-name-client-test01":                     "",
-	"issued-subject-client-test01-alt-name-signer-test02":             "client-test01",
-	"issued-subject-client-test03-alt-names-signer-test02-and-own":    "client-test03",
+	"issued-subject-client-test03-email-and-uri-client-test01":         "client-test03",
+	"issued-empty-subject-alt-name-client-test01":                      "",
+	"issued-subject-client-test01-alt-name-signer-test02":              "client-test01",
+	"issued-subject-client-test03-alt-names-signer-test02-and-own":     "client-test03",
 }
 
 var (
@@ -519,6 +519,10 @@ func runTLS(t *testing.T, rc *RunCtx) {
 	}
 	if rc.Param("mode", "") == "resume" {
 		runTLSResume(t, rc)
+		return
+	}
+	if rc.Param("mode", "") == "portreuse" {
+		runTLSPortReuse(t, rc)
 		return
 	}
 	InitBLS()
